@@ -21,6 +21,7 @@ def step (st : DState) (line : String) : DState × String :=
   | "xp" :: rest => (st, Drv.XPathLit.handle rest)
   | "tv" :: rest => (st, Drv.PyT.handle rest)
   | "mk" :: rest => (st, Drv.Markup.handle rest)
+  | "rp" :: rest => (st, Drv.Replace.handle rest)
   | "row" :: "trav" :: rest => (st, Drv.Row.handleTrav st.row rest)
   | "row" :: rest => let (r, o) := Drv.Row.handle st.row rest; ({ st with row := r }, o)
   | "tbl" :: "x" :: rest =>
